@@ -239,6 +239,13 @@ def write_evidence(ctx, proof, cov, assumptions=()):
 def finish(ctx):
     """write the replay files (most convincing first) and print the verdict lines"""
     vs = sorted(ctx.violations, key=lambda v: (v[3], v[0], v[1]))
+    # replay files of an earlier run with the same seed are stale now
+    import glob
+    for old in glob.glob(os.path.join(REPLAYS, '%s-seed%d-*.json' % (ctx.prop, ctx.seed))):
+        try:
+            os.remove(old)
+        except OSError:
+            pass
     for k, (rank, _, replay, no_input) in enumerate(vs[:10]):
         path = os.path.join(REPLAYS, '%s-seed%d-%d.json' % (ctx.prop, ctx.seed, k))
         with open(path, 'w') as fh:
